@@ -179,6 +179,18 @@ def run(ctx):
             else:
                 gd = False
     ctx.ob("R-ENUM", up, "occurrence counter decremented before and restored after the recursive descent", bal and order_ok, "acquire / recurse / release" if bal and order_ok else "counter pairing broken: rearrangements are repeated or lost")
+    Nup = Normalizer(m, up, inline=False)
+    base = [n for n in walk_no_nested(up.node) if isinstance(n, ast.If) and any(isinstance(x, ast.Yield) for x in ast.walk(ast.Module(body=n.body, type_ignores=[])))]
+    okbase = bool(base) and Nup(base[0].test) == ("cmp", "<", ("n", "elem_d"), ("c", 0))
+    ctx.ob("R-ENUM", up, "a rearrangement is emitted exactly when every position (down to 0) has been filled", okbase,
+           "yield when elem_d < 0" if okbase else f"base case `{unparse(base[0].test) if base else '?'}`: position 0 is never filled (or an extra level is descended)")
+    place = [n for n in walk_no_nested(up.node) if isinstance(n, ast.Assign) and isinstance(n.targets[0], ast.Subscript) and isinstance(n.targets[0].value, ast.Name)
+             and n.targets[0].value.id == "result_list" and isinstance(n.targets[0].slice, ast.Name) and n.targets[0].slice.id == "elem_d"]
+    okplace = bool(place) and isinstance(place[0].value, ast.Attribute) and place[0].value.attr == "value"
+    rec_ok = any(isinstance(x, ast.Call) and isinstance(x.func, ast.Name) and x.func.id == "perm_unique_helper" and len(x.args) == 3 and Nup(x.args[2]) == ("+", (("c", -1), ("n", "elem_d")))
+                 for x in walk_no_nested(up.node))
+    ctx.ob("R-ENUM", up, "the chosen value is written at the current position and the recursion moves to the next position", okplace and rec_ok,
+           "result_list[elem_d] = value; recurse on elem_d - 1" if okplace and rec_ok else "the value is not placed at `elem_d` or the recursion does not descend by one position")
     ctx.ob("R-ENUM", up, "only values with remaining occurrences are placed", gd, "occurrences > 0" if gd else "guard missing or weakened" if gd is False else "guard not recognised", required=gd is not None)
     pm = m.func("perfect_matchings.perfect_matchings")
     Nm = Normalizer(m, pm, inline=False)
